@@ -420,12 +420,6 @@ def _show(r):
 
 
 # ------------------------------------------------------------------ known finding classes (narrow)
-def _tree(case, obs):
-    if case['kind'] in ('rebuild', 'copy'):
-        return obs.get('x') or case['d']
-    return None
-
-
 def f_struct_optional_into_mandatory(case, obs, f):
     def bad(x, y):
         return x['t'] == y['t'] == 'struct' and any(n in x['optional'] and n not in y['optional']
